@@ -225,7 +225,7 @@ theorem extDcl_ok (dc : Dcl) (hwf : WFDcl dc) (hty : ∀ x ∈ dc.names, env.ty 
     ∃ s', run F .externalDeclaration s = .ok (dc.vals s.idx) s' ∧ SeesT env s' rest ∧ s'.idx = s.idx + dc.ntoks := by
   obtain ⟨G, rfl⟩ : ∃ G, F = G + 1 := ⟨F - 1, by omega⟩
   simp only [Dcl.fuel] at hF
-  have hF1 : dc.first.d.fuel + dc.first.d.ntoks + DeclSkel.ofuel dc.first.init + 8 ≤ G := by
+  have hF1 : dc.first.d.fuel + dc.first.d.ntoks + DeclParse.ifuel dc.first.init + 8 ≤ G := by
     have : dc.first.fuel ≤ G := by omega
     simpa [IDc.fuel] using this
   obtain ⟨t, r, hsp, hk0, hk1, hk2, hk3, hk4, hk5⟩ := specs_head hwf.specToks hwf.sawType
@@ -327,20 +327,15 @@ theorem extDcl_ok (dc : Dcl) (hwf : WFDcl dc) (hty : ∀ x ∈ dc.names, env.ty 
     have htl' : tail1 = ("EQUALS", "=") :: (e.flat ++ (k2, v2) :: r2) := by simp [tail1, hin]
     rw [htl'] at hs7
     obtain ⟨s8, h8, hs8, hi8, _⟩ := accept_same s7 "EQUALS" "=" _ hs7
-    obtain ⟨te, re, hfl, hth, _⟩ := flat_heads hwe
-    have hnb : te.1 ≠ "LBRACE" := by intro h; rw [h] at hth; revert hth; decide
-    have hs8' : SeesT env s8 ((te.1, te.2) :: (re ++ (k2, v2) :: r2)) := by simpa [hfl] using hs8
-    obtain ⟨s9, h9, hs9, hi9⟩ := accept_other s8 _ "LBRACE" hs8' (by
-      intro k v r' h; simp only [List.cons.injEq, Prod.mk.injEq] at h; rw [← h.1.1]; exact hnb)
-    have hs9' : SeesT env s9 (e.flat ++ (k2, v2) :: r2) := by simpa [hfl] using hs9
-    obtain ⟨G', rfl⟩ : ∃ G', G = G' + 1 := ⟨G - 1, by have := FullExpr.fuel_ge e; simp [DeclSkel.ofuel, hin] at hF1; omega⟩
-    obtain ⟨sA, hA, hsA, hiA⟩ := (all_ok e).a hwe s9 (k2, v2) r2 hend.stopA hs9' G' (by simp [DeclSkel.ofuel, hin] at hF1; omega)
-    have e9 : s9.idx = s.idx + dc.specs.length + dc.first.d.ntoks + 1 := by omega
-    rw [e9] at hA
-    have hA' : run G' .assignmentExpression s9 = .ok (e.val (s.idx + dc.specs.length + dc.first.d.ntoks + 1)) sA := by simpa using hA
-    have hinit : run (G' + 1) .initializer s8 = .ok (e.val (s.idx + dc.specs.length + dc.first.d.ntoks + 1)) sA := by
-      show pInitializer (run G') s8 = _
-      simp [pInitializer, StmtSkel.bnd, h9, hA']
+    have hendI : Init.EndsInit (k2, v2).1 := by
+      rcases hend with h' | h'
+      · exact .inl h'
+      · exact .inr (.inl h')
+    obtain ⟨G', rfl⟩ : ∃ G', G = G' + 1 := ⟨G - 1, by have := Init.I.fuel_ge e; simp [DeclParse.ifuel, hin] at hF1; omega⟩
+    obtain ⟨sA, hA, hsA, hiA⟩ := Init.init_ok e hwe s8 (k2, v2) r2 hendI hs8 (G' + 1) (by simp [DeclParse.ifuel, hin] at hF1; omega)
+    have e8 : s8.idx = s.idx + dc.specs.length + dc.first.d.ntoks + 1 := by omega
+    rw [e8] at hA
+    have hinit : run (G' + 1) .initializer s8 = .ok (e.val (s.idx + dc.specs.length + dc.first.d.ntoks + 1)) sA := hA
     rw [← hhd] at hsA
     obtain ⟨sB, hB, hsB, hiB⟩ := initList_loop dc.more [(dc.first.di (s.idx + dc.specs.length)).info] sA rest (G' + 1) hwf.more hsA (by omega)
     obtain ⟨sC, hC, hsC, hiC⟩ := buildDeclarations_ok (foldSpec s.idx {} dc.specs) p0 names hok
